@@ -752,7 +752,7 @@ def run(ctx: Ctx) -> int:
     st = ctx.extra["observed"]
     missing = [p for p in RUNNERS if p != "store" and st.get(p, {}).get("accepted", 0) == 0]
     missing += [p for p in ("die", "alloc", "netgen", "floorset_fpef", "rect_netlist", "rect_solution") if st.get("store:" + p, {}).get("accepted", 0) == 0]
-    if missing:
+    if missing and not ctx.violations:      # (rejected documents are violations, reported below -- not a vacuous run)
         raise MachineryError(f"vacuous run: no accepted document for {missing}: {st}")
     ctx.extra["embeddings"] = ALL
     ctx.extra["cases"] = {"tlc": len(printed), "total": len(cases)}
